@@ -222,29 +222,50 @@ def oracle_adapt_metric(ops, impl):
 
 
 def gen_adapt(rng, tier, np=None):
+    """half refining, half coarsening scenarios: coarsening on multi-patch boundaries is where the collapse
+    guards (face-id rule, same-normal, ridge/corner preservation) are the only thing between the metric and
+    the domain; refinement exercises split/swap/cavity."""
     ops = []
-    n3 = 5 if tier == 'quick' else 16
-    n2 = 4 if tier == 'quick' else 12
-    for _ in range(n3):
-        n = [rng.randint(1, 3) for _ in range(3)]
-        metric = rng.choice(['uniform:%.3f' % rng.uniform(0.15, 0.6),
-                             'aniso:%.3f,%.3f,%.3f' % (rng.uniform(0.1, 0.5), rng.uniform(0.1, 0.5), rng.uniform(0.2, 0.6)),
-                             'linh:%.3f,%.3f,%d' % (rng.uniform(0.1, 0.3), rng.uniform(0.3, 0.6), rng.randint(0, 2)),
-                             'rot:%.3f,%.3f,%.3f,%.3f' % (rng.uniform(0.08, 0.2), rng.uniform(0.3, 0.6), rng.uniform(0.3, 0.6), rng.uniform(0, 3.1))])
+    n3 = 6 if tier == 'quick' else 20
+    n2 = 4 if tier == 'quick' else 14
+    for k in range(n3):
+        coarsen = k % 2 == 1
+        if coarsen:
+            n = [rng.randint(3, 4) for _ in range(3)]
+            h = rng.uniform(0.6, 1.6)
+            metric = rng.choice(['uniform:%.3f' % h, 'aniso:%.3f,%.3f,%.3f' % (h, rng.uniform(0.5, 1.5), rng.uniform(0.4, 1.0)),
+                                 'rot:%.3f,%.3f,%.3f,%.3f' % (h, rng.uniform(0.5, 1.2), rng.uniform(0.5, 1.2), rng.uniform(0, 3.1))])
+            patches = rng.choice(['split', 'random', 'sides'])
+            passes = rng.choice([3, 4, 5] if tier == 'quick' else [3, 5, 8, 12])
+        else:
+            n = [rng.randint(1, 3) for _ in range(3)]
+            metric = rng.choice(['uniform:%.3f' % rng.uniform(0.15, 0.6),
+                                 'aniso:%.3f,%.3f,%.3f' % (rng.uniform(0.1, 0.5), rng.uniform(0.1, 0.5), rng.uniform(0.2, 0.6)),
+                                 'linh:%.3f,%.3f,%d' % (rng.uniform(0.1, 0.3), rng.uniform(0.3, 0.6), rng.randint(0, 2)),
+                                 'rot:%.3f,%.3f,%.3f,%.3f' % (rng.uniform(0.08, 0.2), rng.uniform(0.3, 0.6), rng.uniform(0.3, 0.6), rng.uniform(0, 3.1))])
+            patches = rng.choice(['sides', 'one', 'split', 'random'])
+            passes = rng.choice([0, 1, 2, 3] if tier == 'quick' else [0, 1, 2, 5, 8])
         ops.append('adapt dim=3 n=%d,%d,%d jitter=%.2f patches=%s mseed=%d metric=%s passes=%d%s%s' %
-                   (n[0], n[1], n[2], rng.choice([0, 0.2, 0.4]), rng.choice(['sides', 'one', 'split', 'random']),
-                    rng.randint(1, 10 ** 6), metric, rng.choice([0, 1, 2, 3] if tier == 'quick' else [0, 1, 2, 5, 8]),
-                    ' warp=%.2f' % rng.uniform(0.05, 0.15) if rng.random() < 0.25 else '',
+                   (n[0], n[1], n[2], rng.choice([0, 0.2, 0.4]), patches, rng.randint(1, 10 ** 6), metric, passes,
+                    ' warp=%.2f' % rng.uniform(0.05, 0.15) if (not coarsen and rng.random() < 0.3) else '',
                     (' np=%d' % np) if np else ''))
-    for _ in range(n2):
-        n = [rng.randint(2, 5) for _ in range(2)]
-        metric = rng.choice(['uniform:%.3f' % rng.uniform(0.08, 0.4),
-                             'aniso:%.3f,%.3f,1' % (rng.uniform(0.03, 0.3), rng.uniform(0.1, 0.4)),
-                             'linh:%.3f,%.3f,%d' % (rng.uniform(0.05, 0.2), rng.uniform(0.2, 0.5), rng.randint(0, 1)),
-                             'rot:%.3f,%.3f,1,%.3f' % (rng.uniform(0.03, 0.1), rng.uniform(0.2, 0.5), rng.uniform(0, 3.1))])
+    for k in range(n2):
+        coarsen = k % 2 == 1
+        if coarsen:
+            n = [rng.randint(5, 8) for _ in range(2)]
+            metric = rng.choice(['uniform:%.3f' % rng.uniform(0.4, 0.9),
+                                 'aniso:%.3f,%.3f,1' % (rng.uniform(0.3, 0.9), rng.uniform(0.3, 0.9))])
+            passes = rng.choice([3, 5] if tier == 'quick' else [3, 6, 10])
+        else:
+            n = [rng.randint(2, 5) for _ in range(2)]
+            metric = rng.choice(['uniform:%.3f' % rng.uniform(0.08, 0.4),
+                                 'aniso:%.3f,%.3f,1' % (rng.uniform(0.03, 0.3), rng.uniform(0.1, 0.4)),
+                                 'linh:%.3f,%.3f,%d' % (rng.uniform(0.05, 0.2), rng.uniform(0.2, 0.5), rng.randint(0, 1)),
+                                 'rot:%.3f,%.3f,1,%.3f' % (rng.uniform(0.03, 0.1), rng.uniform(0.2, 0.5), rng.uniform(0, 3.1))])
+            passes = rng.choice([0, 1, 2, 4] if tier == 'quick' else [0, 1, 3, 6, 10])
         ops.append('adapt dim=2 n=%d,%d jitter=%.2f patches=%s mseed=%d metric=%s passes=%d%s' %
                    (n[0], n[1], rng.choice([0, 0.3]), rng.choice(['sides', 'one']), rng.randint(1, 10 ** 6), metric,
-                    rng.choice([0, 1, 2, 4] if tier == 'quick' else [0, 1, 3, 6, 10]), (' np=%d' % np) if np else ''))
+                    passes, (' np=%d' % np) if np else ''))
     return ops
 
 
